@@ -7,7 +7,7 @@ from ..effects import MUTATING
 from ..astutil import dotted, get_arg, derived, norm, enclosing, names_in, defs_of, assignments
 from ..srcmodel import own_nodes, AnalysisError
 from .C17 import find_committer, find_appenders, d2_data_owners, d2_commit_counts
-from .C09 import d3_checker, d2_accumulator, d4_iterable, product_atoms, expand_props
+from .C09 import d3_checker, d2_accumulator, d4_iterable, product_atoms, expand_props, recover
 from .C20 import fold
 from ._shared import raised_names
 
@@ -48,6 +48,15 @@ def run(ctx):
     d3_appender_return(ctx, ap)
     d4_truncate(ctx, committer)
     d5_cache(ctx, c, committer)
+    from ._shared import opener_branch_agreement
+    opener_branch_agreement(ctx, 'D5')
+    # rejected calls leave the state unchanged: the recovery of iterappend (shared with C09)
+    for n, cal in ctx.E.callees(f):
+        if cal in appenders and isinstance(n, ast.Call):
+            recover(ctx, f, c, n, f'appender call {norm(n.func)}', committer, appenders)
+    for e in ctx.E.primitives(f):
+        if e.kind == 'WRITE-PATH':
+            recover(ctx, f, c, e.node, f'{e.kind} {norm(e.node)[:40]}', committer, appenders)
     sites = [(n, '') for n, cal in ctx.E.callees(f) if cal in appenders] + \
         [(e.node, '') for e in ctx.E.primitives(f) if e.kind in ('WRITE-PATH',)]
     d4_iterable(ctx, f, sites)                      # D6
